@@ -21,7 +21,7 @@ var techniques = map[string]string{
 	"C09": "custom static analysis: parser.go.y precedence/associativity audit, goyacc regeneration compared as Go AST with parser.go, lexer↔grammar↔printer operator text agreement, printer field coverage, in-band EOF sentinel lint",
 	"C10": "custom static analysis: overflow-guard presence on int fast paths (CFG), guarded int negation, integer cells never routed through float64, UseNumber typestate on every JSON decoder, verbatim number plumbing in both encoders, json.Number provenance through third-party decoders (dependency source inspected), range tests before narrowing conversions, clamp-before-multiply and side-of-overflow bounds on saturated conversions of JSON numbers (interprocedural provenance)",
 	"C11": "custom static analysis: single comparison function (call graph + interface-equality census), stable sort API, native string order for keys, typeIndex constants",
-	"C12": "custom static analysis: sibling agreement of the two JSON encoders modulo decoration, single encoder per package, decoration writes are whitespace/SGR constants",
+	"C12": "custom static analysis: sibling agreement of the two JSON encoders modulo decoration, single encoder per package, decoration writes are whitespace/SGR constants; audit of what reaches the YAML encoder (type-switch arms of the converter, premise read from the dependency source)",
 	"C13": "custom static analysis: codec-pair agreement (matching alphabet, escape, location and conversion halves)",
 	"C14": "custom SSA taint analysis: byte offsets (regexp/strings/len/range-over-string) must not reach jq-visible values unconverted; cache-key determinacy by backward slicing, flag forwarding in the shipped regex definitions (evaluated builtin.go literal), sentinel-first use of clamped positions, no multiplied cut positions",
 	"C15": "custom static analysis: stream discipline (stdout writers), status-constant and ExitCode table, input-loop exits, terminator bytes, HaltError let through at every error-interception site of the VM",
